@@ -1,4 +1,7 @@
 import OtelVerif.Lemmas.C06
+import OtelVerif.Lemmas.C06Dag
+import OtelVerif.Lemmas.C06DagFlat
+import OtelVerif.Lemmas.C06Src
 /-!
 # C06 — fan-out never lets one consumer's mutation reach another consumer
 
@@ -449,6 +452,317 @@ example : deliveries [true, true] true = [⟨0, .clone 0⟩, ⟨1, .clone 1⟩] 
 example : (runFan [true, false, false] false 7 (fun c => if c = 0 then some 9 else none)).1.origRO = true := by decide
 example : isRO [true, false, false] 1 ∧ (readonlyIdx [true, false, false]).length > 1 := by simp [isRO]; decide
 
+
+/-! ## whole graphs: one payload travelling through ANY tree of pipelines, connectors and exporters
+
+`Dag.fan f o h` is the operational semantics (every fan-out clones / shares / marks as `Consume*` does, every inner node
+advertises what `graph.go` / `connector.go` compute, declared mutators write to the object they are handed);
+`Dag.specAll f t` is the abstract semantics "every consumer works on a private copy".  No bound on depth, width, number of
+processors, sharing pattern; any heap, any object. -/
+
+/-- **Refinement.**  What every exporter anywhere below a fan-out is shown at its call is exactly what the private-copy
+semantics prescribes — the payload that was sent plus the tags of the declared mutators on ITS OWN path, nothing written by
+any sibling, cousin or other pipeline — in serving order (`specFan`) and, order-free, as a permutation of `specAll`. -/
+theorem C06_dag_refines (f : Dag.Forest) (o : Nat) (h : Dag.Heap) (ho : o < h.next) :
+    (Dag.fan f o h).2.map Dag.Obs.proj = Dag.specFan f (h.content o) ∧
+    ((Dag.fan f o h).2.map Dag.Obs.proj).Perm (Dag.specAll f (h.content o)) := by
+  have F := Dag.fan_good f o h ho
+  exact ⟨F.obs, by rw [F.obs]; exact Dag.specFan_perm f _⟩
+
+/-- … and it stays so: after the whole graph has run (all siblings at every level, everything downstream of them), the object
+each exporter was handed holds exactly what it was shown plus its own declared write. -/
+theorem C06_dag_final (f : Dag.Forest) (o : Nat) (h : Dag.Heap) (ho : o < h.next) :
+    ∀ ob ∈ (Dag.fan f o h).2, (Dag.fan f o h).1.content ob.obj = ob.content ++ ob.own :=
+  (Dag.fan_good f o h ho).final
+
+/-- no declared mutator at any depth (processor, connector, exporter) is ever handed a read-only object: nothing panics, and
+a mutating exporter sees `IsReadOnly() = false` -/
+theorem C06_dag_no_panic (f : Dag.Forest) (o : Nat) (h : Dag.Heap) (ho : o < h.next) :
+    (Dag.fan f o h).1.panics = h.panics ∧ ∀ ob ∈ (Dag.fan f o h).2, ob.own ≠ [] → ob.ro = false :=
+  ⟨(Dag.fan_good f o h ho).panics, (Dag.fan_good f o h ho).wr⟩
+
+/-- frame: a fan-out call touches no object that existed before except the one it was given, and it does not change even that
+one's content unless it advertises mutation (`fanCap`: some consumer mutates and none is non-mutating) — `C06_two_level` at
+any depth -/
+theorem C06_dag_frame (f : Dag.Forest) (o : Nat) (h : Dag.Heap) (ho : o < h.next) :
+    (∀ x, x < h.next → x ≠ o → (Dag.fan f o h).1.content x = h.content x ∧ (Dag.fan f o h).1.ro x = h.ro x) ∧
+    (fanCap (Dag.caps f) = false → (Dag.fan f o h).1.content o = h.content o) ∧
+    (h.ro o = true → (Dag.fan f o h).1.ro o = true) := by
+  have F := Dag.fan_good f o h ho
+  refine ⟨F.frame, fun hc => F.quiet ?_, F.roKeep⟩
+  exact Dag.fanCap_false _ hc
+
+/-- a pipeline / connector that does not advertise mutation never changes the object it is handed, whatever is below it -/
+theorem C06_dag_quiet_node (k : Dag.Kind) (ws : List (Nat × Bool)) (kids : Dag.Forest) (o : Nat) (h : Dag.Heap) (ho : o < h.next)
+    (hc : Dag.innerCap k ws (Dag.caps kids) = false) :
+    (Dag.fan kids o (Dag.writeAll ws o h)).1.content o = h.content o := by
+  obtain ⟨hw, hq⟩ := Dag.innerCap_false k ws kids hc
+  rw [(Dag.writeAll_none ws o h hw).1]
+  exact (Dag.fan_good kids o h ho).quiet hq
+
+/-- **shared ⇒ read-only, anywhere in the graph**: any two exporter calls (same fan-out, different pipelines, different depth …) that
+are handed the SAME object both see it read-only — an undeclared mutation by either panics (`Dag.Heap.write` on a read-only object
+only records the panic) instead of corrupting the other -/
+theorem C06_dag_shared_readonly (f : Dag.Forest) (o : Nat) (h : Dag.Heap) (ho : o < h.next) :
+    (Dag.fan f o h).2.Pairwise (fun a b => a.obj = b.obj → a.ro = true ∧ b.ro = true) :=
+  (Dag.fan_good f o h ho).pw
+
+/-- **exclusive**: the object of an exporter that declares mutation is handed to no other exporter call of the whole graph -/
+theorem C06_dag_exclusive (f : Dag.Forest) (o : Nat) (h : Dag.Heap) (ho : o < h.next) :
+    (Dag.fan f o h).2.Pairwise (fun a b => (a.own ≠ [] ∨ b.own ≠ []) → a.obj ≠ b.obj) := by
+  have F := Dag.fan_good f o h ho
+  have hmem : (Dag.fan f o h).2.Pairwise (fun a b => a ∈ (Dag.fan f o h).2 ∧ b ∈ (Dag.fan f o h).2) := by
+    apply List.Pairwise.imp_of_mem (R := fun _ _ => True)
+    · intro a b ha hb _; exact ⟨ha, hb⟩
+    · exact List.pairwise_of_forall (fun _ _ => trivial)
+  refine (F.pw.and hmem).imp ?_
+  rintro a b ⟨hab, ha, hb⟩ hown e
+  have := hab e
+  rcases hown with hw | hw
+  · have := F.wr a ha hw; simp_all
+  · have := F.wr b hb hw; simp_all
+
+theorem pairwise_getElem?_ne {α : Type} {R : α → α → Prop} (hs : ∀ a b, R a b → R b a) {l : List α} (h : l.Pairwise R)
+    {i j : Nat} {a b : α} (hij : i ≠ j) (ha : l[i]? = some a) (hb : l[j]? = some b) : R a b := by
+  obtain ⟨hi, rfl⟩ := List.getElem?_eq_some_iff.1 ha
+  obtain ⟨hj, rfl⟩ := List.getElem?_eq_some_iff.1 hb
+  rcases Nat.lt_or_gt_of_ne hij with hlt | hgt
+  · exact (List.pairwise_iff_getElem.1 h) i j hi hj hlt
+  · exact hs _ _ ((List.pairwise_iff_getElem.1 h) j i hj hi hgt)
+
+/-- **asynchronous mutation**: whatever the declared mutators write LATER (any number of writes, any order, after the whole graph
+has returned) to the objects they hold, every other exporter call's object still holds exactly what that call was shown plus its
+own write -/
+theorem C06_dag_async (f : Dag.Forest) (o : Nat) (h : Dag.Heap) (ho : o < h.next) (ws : List (Nat × Nat)) (j : Nat) (ob : Dag.Obs)
+    (hj : (Dag.fan f o h).2[j]? = some ob) (hws : ∀ w ∈ ws, w.1 ≠ j) :
+    (Dag.later (Dag.fan f o h).2 (Dag.fan f o h).1 ws).content ob.obj = ob.content ++ ob.own := by
+  have hex := C06_dag_exclusive f o h ho
+  have hfin := C06_dag_final f o h ho ob (List.mem_of_getElem? hj)
+  have key : ∀ (ws : List (Nat × Nat)) (H : Dag.Heap), (∀ w ∈ ws, w.1 ≠ j) →
+      (Dag.later (Dag.fan f o h).2 H ws).content ob.obj = H.content ob.obj := by
+    intro ws
+    induction ws with
+    | nil => intro H _; rfl
+    | cons w ws ih =>
+      intro H hw
+      obtain ⟨i, tag⟩ := w
+      have hi : i ≠ j := hw (i, tag) (by simp)
+      have hrest : ∀ w ∈ ws, w.1 ≠ j := fun w hw' => hw w (by simp [hw'])
+      simp only [Dag.later]
+      cases hob : (Dag.fan f o h).2[i]? with
+      | none => exact ih H hrest
+      | some ob' =>
+        simp only []
+        by_cases he : ob'.own.isEmpty = true
+        · simp only [he, if_true]; exact ih H hrest
+        · simp only [he, Bool.false_eq_true, if_false]
+          rw [ih _ hrest]
+          have hne : ob'.obj ≠ ob.obj :=
+            pairwise_getElem?_ne (R := fun a b => (a.own ≠ [] ∨ b.own ≠ []) → a.obj ≠ b.obj)
+              (fun a b hab hor e => hab (hor.symm) e.symm) hex hi hob hj
+              (Or.inl (by intro e; simp [e] at he))
+          exact Dag.write_content_ne _ _ _ _ (Ne.symm hne)
+  rw [key ws _ hws]; exact hfin
+
+/-- every exporter below is called whatever its siblings return, and the error the caller gets back aggregates every failing call:
+the failing calls are exactly (as a multiset) the failing entries of the private-copy semantics -/
+theorem C06_dag_errors (f : Dag.Forest) (o : Nat) (h : Dag.Heap) (ho : o < h.next) (fails : Nat → Bool) :
+    (((Dag.fan f o h).2.filter (fun ob => fails ob.id)).map Dag.Obs.proj).Perm
+      ((Dag.specAll f (h.content o)).filter (fun e => fails e.1)) := by
+  have hp := ((C06_dag_refines f o h ho).2).filter (fun e => fails e.1)
+  have : ((Dag.fan f o h).2.filter (fun ob => fails ob.id)).map Dag.Obs.proj =
+      ((Dag.fan f o h).2.map Dag.Obs.proj).filter (fun e => fails e.1) := by
+    rw [List.filter_map]; rfl
+  rw [this]; exact hp
+
+/-- **the whole-graph semantics is built from the code-tied fan-out model**: one fan-out of `Dag.fan` over plain exporters with
+capabilities `caps` hands every consumer exactly the object `deliveries caps` says (the caller's object, or the `k`-th object
+allocated from `h.next` on for `.clone k`), in the same order, and shows it the read-only flag `seenRO` says — for every heap -/
+theorem C06_dag_flat (caps : List Bool) (o : Nat) (h : Dag.Heap) (ho : o < h.next) :
+    (Dag.fan (Dag.ofCaps caps 0) o h).2.map (fun ob => (ob.id, ob.obj)) =
+      (deliveries caps (h.ro o)).map (fun d => (d.consumer, Dag.objNum o h.next d.obj)) ∧
+    (∀ ob ∈ (Dag.fan (Dag.ofCaps caps 0) o h).2, ob.ro = seenRO caps (h.ro o) ob.id) ∧
+    Dag.caps (Dag.ofCaps caps 0) = caps :=
+  ⟨(Dag.fan_ofCaps caps o h ho).1, (Dag.fan_ofCaps caps o h ho).2, Dag.caps_ofCaps caps 0⟩
+
+example : (Dag.fan (Dag.ofCaps [true, false, true, false] 0) 0 (Dag.Heap.init [] false)).2.map (fun ob => (ob.id, ob.obj, ob.ro)) =
+    [(0, 1, false), (2, 2, false), (1, 0, true), (3, 0, true)] := by decide
+
+/-- the driver's oracle on the implementation's observations is sound: it accepts only permutations of the private-copy semantics -/
+theorem C06_dag_check_sound (f : Dag.Forest) (t : Dag.Trail) (seen : List (Nat × Dag.Trail))
+    (h : Dag.checkLeaves f t seen = true) : seen.Perm (Dag.specAll f t) := by
+  simpa [Dag.checkLeaves, List.isPerm_iff] using h
+
+/-- non-vacuity: receiver → [pipeline A (mutating processor 1; exporters 2 (mutating), 3; connector 4 → pipeline B (exporters 5, 6)),
+pipeline C (exporter 7)].  A advertises mutation and gets a clone; C shares the original. -/
+def Dag.ex1 : Dag.Forest :=
+  .inner .pipe [(1, true)]
+    (.exp 2 true (.exp 3 false (.inner .conn [(4, false)] (.inner .pipe [] (.exp 5 false (.exp 6 false .nil)) .nil) .nil)))
+    (.inner .pipe [] (.exp 7 false .nil) .nil)
+
+example : Dag.caps Dag.ex1 = [true, false] := by decide
+example : (Dag.later (Dag.fan Dag.ex1 0 (Dag.Heap.init [] false)).2 (Dag.fan Dag.ex1 0 (Dag.Heap.init [] false)).1 [(0, 2), (0, 2)]).content 2 =
+    [1, 2, 2, 2] := by decide
+example : (Dag.fan Dag.ex1 0 (Dag.Heap.init [] false)).2 =
+    [⟨2, 2, [1], false, [2]⟩, ⟨3, 1, [1], true, []⟩, ⟨5, 1, [1], true, []⟩, ⟨6, 1, [1], true, []⟩, ⟨7, 0, [], false, []⟩] := by
+  decide
+example : Dag.specAll Dag.ex1 [] = [(2, [1]), (3, [1]), (5, [1]), (6, [1]), (7, [])] := by decide
+example : Dag.checkLeaves Dag.ex1 [] [(7, []), (2, [1]), (3, [1]), (5, [1]), (6, [1])] = true := by decide
+example : Dag.checkLeaves Dag.ex1 [] [(7, [1]), (2, [1]), (3, [1]), (5, [1]), (6, [1])] = false := by decide
+
+
+/-! ## the SOURCE of the four fan-out files means the model
+
+`Gen.FanoutShape.{logs,metrics,traces,profiles}` are regenerated on every run from `internal/fanoutconsumer/*.go` by
+`translators/cmd/fanoutshape` (statement-by-statement translation of `New*`, `Capabilities`, `Consume*`, `clone*`). -/
+
+/-- for EACH of the four signals and every capability vector: running the translated `Consume*` on the slices the translated
+`New*` builds performs exactly the calls / clones / marking of the model, with the model's effect on every heap and every
+behaviour of the consumers; the translated `Capabilities()` is `fanCap`; a clone is a fresh copy -/
+theorem C06_src_fanout (name : String) (p : Src.Fan) (hp : (name, p) ∈ Gen.FanoutShape.all)
+    (caps : List Bool) (inputRO : Bool) (c0 : Nat) (syncW : Nat → Option Nat) :
+    Src.part p.part caps 0 = (mutableIdx caps, readonlyIdx caps) ∧
+    (Src.exec p.consume (Src.part p.part caps 0).1 (Src.part p.part caps 0).2 ⟨[], 0, inputRO⟩).evs = Src.planEvs caps inputRO ∧
+    Src.runEvs syncW { orig := c0, origRO := inputRO }
+        (Src.exec p.consume (Src.part p.part caps 0).1 (Src.part p.part caps 0).2 ⟨[], 0, inputRO⟩).evs =
+      runFan caps inputRO c0 syncW ∧
+    (∀ r, Src.evalB p.capExp (Src.part p.part caps 0).1 (Src.part p.part caps 0).2 r = fanCap caps) ∧
+    p.cloneIsFreshCopy = true := by
+  have hcanon : p = Src.canon := by
+    obtain ⟨h1, h2, h3, h4⟩ := Src.gen_eq_canon
+    simp only [Gen.FanoutShape.all, List.mem_cons, Prod.mk.injEq, List.mem_nil_iff, or_false] at hp
+    rcases hp with ⟨_, rfl⟩ | ⟨_, rfl⟩ | ⟨_, rfl⟩ | ⟨_, rfl⟩ <;> assumption
+  subst hcanon
+  have hpart : Src.part Src.canon.part caps 0 = (mutableIdx caps, readonlyIdx caps) := Src.part_canon caps 0
+  refine ⟨hpart, ?_, ?_, ?_, rfl⟩
+  · rw [hpart]; exact Src.exec_canon caps inputRO
+  · rw [hpart]; simp only []; rw [Src.exec_canon, Src.runEvs_plan]
+  · intro r; rw [hpart]; exact Src.evalB_canon_cap caps r
+
+/-- `New*` returns the single consumer itself when it does not mutate (every one of the four files does): unobservable — the
+wrapper would call it exactly once with the caller's object, never mark, and advertise non-mutating -/
+theorem C06_src_unwrap_unobservable (inputRO : Bool) :
+    (∀ p ∈ Gen.FanoutShape.all, p.2.unwrapSingleRO = true) ∧
+    deliveries [false] inputRO = [⟨0, .orig⟩] ∧ marksRO [false] inputRO = false ∧ fanCap [false] = false := by
+  refine ⟨by decide, ?_, ?_, by decide⟩ <;> cases inputRO <;> decide
+
+/-- the graph's capability glue, regenerated from `connector.go` / `graph.go` / `capabilityconsumer`: `aggregateCap`'s loop is
+`aggregateCap`, the capabilities node's loop is `pipelineCap` (of the fan-out node's capability), and for every signal the
+same-signal connector arm / the capabilities node arm expose a consumer that advertises exactly that value, while every
+cross-signal connector arm exposes the connector unwrapped (its own declared capability: for the pipeline that feeds it, it is a leaf
+of the whole-graph model) -/
+theorem C06_src_graph_glue (base : Bool) (nexts procs exporters : List Bool) (fo : Bool) :
+    Src.evalCap Gen.FanoutShape.aggregateCapExp base fo nexts procs = aggregateCap base nexts ∧
+    Src.evalCap Gen.FanoutShape.capNodeExp base (fanCap exporters) nexts procs = pipelineCap procs exporters ∧
+    (∀ s ∈ ["logs", "metrics", "traces", "profiles"],
+      Gen.FanoutShape.connectorWraps.lookup s = some true ∧ Gen.FanoutShape.capNodeWraps.lookup s = some true ∧
+      Gen.FanoutShape.capConsumerAdvertisesRequested.lookup s = some true ∧
+      Gen.FanoutShape.connectorCrossUnwrapped.lookup s = some true) := by
+  refine ⟨?_, ?_, by decide⟩
+  · simp [Gen.FanoutShape.aggregateCapExp, Src.evalCap, Src.orLoop_eq, aggregateCap]
+  · simp [Gen.FanoutShape.capNodeExp, Src.evalCap, Src.orLoop_eq, pipelineCap]
+
+example : ("metrics", Gen.FanoutShape.metrics) ∈ Gen.FanoutShape.all := by decide
+
+/-! ## connector routers (regenerated from `connector/*_router.go`, `connector/internal/router.go`, `xconnector/profiles_router.go`) -/
+
+theorem filter_length_all (p : Nat → Bool) (l : List Nat) : (l.filter p).length = l.length ↔ l.all p = true := by
+  induction l with
+  | nil => simp
+  | cons x xs ih =>
+    by_cases hx : p x = true
+    · simp [hx, ih]
+    · have hx' : p x = false := by simpa using hx
+      have hle := List.length_filter_le p xs
+      have hf : (x :: xs).filter p = xs.filter p := by simp [hx']
+      rw [hf]
+      simp only [List.all_cons, hx', Bool.false_and, List.length_cons]
+      constructor
+      · intro h; omega
+      · intro h; cases h
+
+/-- for EACH of the four signals the router's `Consumer(ids…)` accepts exactly the non-empty selections of known pipelines
+(`routerSelect`, what the router differential runs), and the consumer it returns is the signal's fan-out over the selected
+pipelines' consumers in the order given, repeats included — so everything proved about `deliveries`/`runFan` applies to it with
+`caps` = the capabilities of the selection; the router itself consumes through the fan-out over all its pipelines -/
+theorem C06_src_router (name : String) (r : Src.Route) (hr : (name, r) ∈ Gen.FanoutShape.routers) (n : Nat) (sel : List Nat) :
+    r.select n sel = routerSelect n sel ∧ (∀ l, routerSelect n sel = some l → l = sel ∧ sel ≠ [] ∧ ∀ i ∈ sel, i < n) ∧
+    r.lookupInOrder = true ∧ r.fanoutOverFound = true ∧ r.defaultOverAll = true := by
+  have hall : r = ⟨true, true, true, true, true⟩ := by
+    simp only [Gen.FanoutShape.routers, List.mem_cons, Prod.mk.injEq, List.mem_nil_iff, or_false] at hr
+    rcases hr with ⟨_, rfl⟩ | ⟨_, rfl⟩ | ⟨_, rfl⟩ | ⟨_, rfl⟩ <;> rfl
+  subst hall
+  refine ⟨?_, ?_, rfl, rfl, rfl⟩
+  · simp only [Src.Route.select, routerSelect, Bool.true_and]
+    by_cases he : sel.isEmpty = true
+    · simp [he]
+    · have he' : sel.isEmpty = false := by simpa using he
+      simp only [he', Bool.false_eq_true, if_false]
+      by_cases ha : sel.all (fun x => decide (x < n)) = true
+      · have hl := (filter_length_all (fun x => decide (x < n)) sel).2 ha
+        have hf : sel.filter (fun x => decide (x < n)) = sel := List.filter_eq_self.2 (by simpa using ha)
+        simp [ha, hf]
+      · have hl : (sel.filter (fun x => decide (x < n))).length ≠ sel.length :=
+          fun h => ha ((filter_length_all _ sel).1 h)
+        simp [ha, hl]
+  · intro l hl
+    simp only [routerSelect] at hl
+    by_cases he : sel.isEmpty = true
+    · simp [he] at hl
+    · have he' : sel.isEmpty = false := by simpa using he
+      simp only [he', Bool.false_eq_true, if_false] at hl
+      by_cases ha : sel.all (fun x => decide (x < n)) = true
+      · simp only [ha, if_true, Option.some.injEq] at hl
+        refine ⟨hl.symm, ?_, ?_⟩
+        · intro e; simp [e] at he
+        · intro i hi; simpa using (List.all_eq_true.1 ha) i hi
+      · simp [ha] at hl
+
+example : routerSelect 3 [2, 0, 2] = some [2, 0, 2] ∧ routerSelect 3 [] = none ∧ routerSelect 3 [1, 3] = none := by decide
+
+/-! ## declared → advertised capability through the helpers (constants regenerated from the source) -/
+
+theorem getLastD_cons (c : Bool) (cs : List Bool) (a b : Bool) : (c :: cs).getLast?.getD a = (c :: cs).getLast?.getD b := by
+  cases h : (c :: cs).getLast? with
+  | none => simp at h
+  | some x => rfl
+
+theorem applyCaps_last (d : Bool) (l : List Bool) : applyCaps d l = l.getLast?.getD d := by
+  induction l generalizing d with
+  | nil => rfl
+  | cons c cs ih =>
+    rw [applyCaps, ih]
+    cases cs with
+    | nil => rfl
+    | cons c' cs' => rw [List.getLast?_cons_cons]; exact getLastD_cons _ _ _ _
+
+/-- a processor built with the processor helper (either flavour) advertises its LAST own declaration, and **mutation when it
+declares nothing** — so the fan-out in front of a pipeline with such a processor always gives that pipeline its own copy -/
+theorem C06_helper_processor (decls : List Bool) :
+    processorCapH Gen.FanoutShape.consumerDefaultMutates Gen.FanoutShape.processorHelperDefaults decls = decls.getLast?.getD true ∧
+    processorCapH Gen.FanoutShape.consumerDefaultMutates Gen.FanoutShape.xprocessorHelperDefaults decls = decls.getLast?.getD true := by
+  simp only [processorCapH, applyCaps_last, Gen.FanoutShape.processorHelperDefaults, Gen.FanoutShape.xprocessorHelperDefaults]
+  cases decls with
+  | nil => simp
+  | cons c cs =>
+    have : ([true] ++ c :: cs).getLast? = (c :: cs).getLast? := by simp [List.getLast?_cons_cons]
+    simp only [this]
+    exact ⟨getLastD_cons _ _ _ _, getLastD_cons _ _ _ _⟩
+
+/-- an exporter built with the exporter helper that batches advertises mutation whatever it declared; otherwise its last own
+declaration, non-mutating by default (`exporterCap`, the model the exporter differential has been using) -/
+theorem C06_helper_exporter (decls : List Bool) (batching : Bool) :
+    exporterCapH Gen.FanoutShape.consumerDefaultMutates Gen.FanoutShape.exporterBatchingDeclares decls true = true ∧
+    exporterCapH Gen.FanoutShape.consumerDefaultMutates Gen.FanoutShape.exporterBatchingDeclares decls false = decls.getLast?.getD false ∧
+    exporterCapH Gen.FanoutShape.consumerDefaultMutates Gen.FanoutShape.exporterBatchingDeclares decls batching =
+      exporterCap decls.getLast? batching ∧
+    Gen.FanoutShape.exporterBatchingCond = "be.batcherCfg.Enabled || be.queueCfg.Batch != nil" := by
+  simp only [exporterCapH, applyCaps_last, Gen.FanoutShape.exporterBatchingDeclares, Gen.FanoutShape.consumerDefaultMutates, exporterCap]
+  refine ⟨by simp [List.getLast?_append], by simp, ?_, by decide⟩
+  cases batching <;> simp [List.getLast?_append]
+
+example : processorCapH false [true] [] = true ∧ processorCapH false [true] [true, false] = false ∧
+    exporterCapH false true [false] true = true ∧ exporterCapH false true [true, false] false = false := by decide
 
 /-! ## order-independent summary (what the graph harness can observe whatever order the graph hands the consumers over in) -/
 
